@@ -203,7 +203,13 @@ pub fn run(ctx: &Ctx) -> i32 {
     let acc = crate::par::run(n, 8, |i, acc| {
         let mut rng = Rng::derive(seed, 0xc01, i as u64);
         let mut cl = Classes::default();
-        let base = gen_doc(&mut rng, &GenOpts::common(), &mut cl);
+        let heavy = i % 150 == 149;
+        let base = if heavy {
+            acc.count("heavy_documents");
+            crate::gen::gen_heavy_doc(&mut rng)
+        } else {
+            gen_doc(&mut rng, &GenOpts::common(), &mut cl)
+        };
         let tdoc = tomlify(&base).or_else(|| {
             let mut c2 = Classes::default();
             Some(gen_doc(&mut rng, &GenOpts::toml(), &mut c2))
@@ -226,16 +232,16 @@ pub fn run(ctx: &Ctx) -> i32 {
                 };
                 acc.max("max_depth", doc.depth() as u64);
                 // spellings: one conventional, two hostile
-                for sp in 0..3 {
+                for sp in 0..(if heavy { 1 } else { 3 }) {
                     let mut feats = Feats::default();
-                    let bytes = spell(src, &doc, &mut rng, &mut feats, sp == 0);
+                    let bytes = spell(src, &doc, &mut rng, &mut feats, sp == 0 && !heavy);
                     for (k, v) in &feats.0 {
                         acc.add(&format!("spelling_{k}"), *v as u64);
                     }
-                    let modes = [Mode::Slice, Mode::Reader(match rng.below(4) {
+                    let modes = [Mode::Slice, Mode::Reader(match if heavy { 1 + rng.below(3) } else { rng.below(4) } {
                         0 => Sched::One,
                         1 => Sched::All,
-                        2 => Sched::Fixed(*rng.pick(&[2usize, 3, 7, 4096])),
+                        2 => Sched::Fixed(*rng.pick(if heavy { &[4096usize, 8191, 8192, 16384][..] } else { &[2usize, 3, 7, 4096][..] })),
                         _ => Sched::Random(rng.next(), 16),
                     })];
                     let det = detected_as(&bytes);
@@ -269,7 +275,7 @@ pub fn run(ctx: &Ctx) -> i32 {
         }
     });
     let rule = format!(
-        "{} generated documents of the common model (scalar pools aimed at type look-alike strings, YAML indicators, control/BOM/non-character/astral code points, integer boundaries of every width, 17-digit and special floats; depth up to 64; wide collections at MessagePack header thresholds) x 16 (source,target) pairs (TOML pairs on the TOML-representable restriction) x 3 spellings (1 conventional, 2 hostile) x [slice, 1 scheduled reader] x [explicit, detected when the detect hook names the source format]; oracle = independent reader of the target; distinct non-trivial = distinct documents containing >= 1 hostile-class scalar or depth >= 3",
+        "{} generated documents of the common model (scalar pools aimed at type look-alike strings, YAML indicators, control/BOM/non-character/astral code points, integer boundaries of every width, 17-digit and special floats; depth up to 64; wide collections at MessagePack header thresholds; every 150th document a 'heavy' one: 4 095..70 000 entries, or tens of KiB of multi-byte text) x 16 (source,target) pairs (TOML pairs on the TOML-representable restriction) x 3 spellings (1 conventional, 2 hostile) x [slice, 1 scheduled reader] x [explicit, detected when the detect hook names the source format]; oracle = independent reader of the target; distinct non-trivial = distinct documents containing >= 1 hostile-class scalar or depth >= 3",
         n
     );
     ev::finish(
@@ -284,7 +290,7 @@ pub fn run(ctx: &Ctx) -> i32 {
             extra: serde_json::Map::new(),
             exhaustive: false,
             min_distinct: 200,
-            must_reach: vec![("detected_runs".into(), 100), ("class_lookalike_strings".into(), 50), ("class_float_values".into(), 50)],
+            must_reach: vec![("heavy_documents".into(), 10), ("detected_runs".into(), 100), ("class_lookalike_strings".into(), 50), ("class_float_values".into(), 50)],
         },
         acc,
     )
